@@ -118,10 +118,16 @@ func Execute(ch *Check, p *Profile, tier string, t *Tapes, keepLog bool) (out Ou
 	c := newRunCtx(ch.Prop, p.Name, tier, t, keepLog)
 	out.Ctx = c
 	if ExecWall > 0 {
-		wd := time.AfterFunc(ExecWall, func() {
+		wall := ExecWall
+		if p.Prologue {
+			// exhaustive enumerations are long by design, and the machine may
+			// be shared with other checks
+			wall *= 10
+		}
+		wd := time.AfterFunc(wall, func() {
 			buf := make([]byte, 1<<20)
 			n := runtime.Stack(buf, true)
-			fmt.Fprintf(os.Stderr, "WATCHDOG: property=%s profile=%s: one execution exceeded %v\n%s\n", ch.Prop, p.Name, ExecWall, buf[:n])
+			fmt.Fprintf(os.Stderr, "WATCHDOG: property=%s profile=%s: one execution exceeded %v\n%s\n", ch.Prop, p.Name, wall, buf[:n])
 			os.Exit(2)
 		})
 		defer wd.Stop()
@@ -375,10 +381,14 @@ func RunBatch(o BatchOpts) int {
 		t := NewTapes(runSeed)
 		var wd *time.Timer
 		if o.RunWall > 0 {
-			wd = time.AfterFunc(o.RunWall, func() {
+			wall := o.RunWall
+			if p.Prologue {
+				wall *= 10
+			}
+			wd = time.AfterFunc(wall, func() {
 				buf := make([]byte, 1<<20)
 				n := runtime.Stack(buf, true)
-				fmt.Fprintf(os.Stderr, "WATCHDOG: property=%s profile=%s run_index=%d run_seed=%d exceeded %v\n%s\n", o.Prop, p.Name, idx, runSeed, o.RunWall, buf[:n])
+				fmt.Fprintf(os.Stderr, "WATCHDOG: property=%s profile=%s run_index=%d run_seed=%d exceeded %v\n%s\n", o.Prop, p.Name, idx, runSeed, wall, buf[:n])
 				os.Exit(2)
 			})
 		}
